@@ -59,7 +59,8 @@ Inject(a, i) == LET v == a[i] IN
 Injected(a) == UNION {Inject(a, i) : i \in 1..Len(a)}
 InjBase == IF Cardinality(BaseLists) <= 25 THEN BaseLists ELSE RandomSubset(25, BaseLists)
 
-WeakOf(a) == UNION {{[a EXCEPT ![i] = w] : w \in (IF Thorough THEN Weak1(a[i], FALSE) ELSE TakeN(Weak1(a[i], FALSE), 6) \cup TakeN(Weak1(a[i], TRUE), 4))} : i \in 1..Len(a)}
+TW(Ws) == {w \in Ws : TypedUnknowns(w)}
+WeakOf(a) == UNION {{[a EXCEPT ![i] = w] : w \in (IF Thorough THEN TW(Weak1(a[i], FALSE)) ELSE TakeN(TW(Weak1(a[i], FALSE)), 6) \cup TakeN(TW(Weak1(a[i], TRUE)), 4))} : i \in 1..Len(a)}
              \cup (IF Len(a) >= 2 THEN {[a EXCEPT ![1] = w1, ![2] = w2] : w1 \in TakeN(Weak1(a[1], TRUE), 2), w2 \in TakeN(Weak1(a[2], TRUE), 2)} ELSE {})
 MarkOf(a) == UNION {{[a EXCEPT ![i] = w] : w \in TakeN(MarkPlacements(a[i]), 5) \ {a[i]}} : i \in 1..Len(a)}
              \* an unknown argument at one position together with a (nested) mark at another
